@@ -74,8 +74,9 @@ func c07Hooks(level int) limHooks {
 						return
 					}
 					cur := li.top.EstimatedLimit()
-					if cur != prev+cfg.incr {
-						t.Fail("aimd/healthy-increment", "saturated drop-free sample moved the limit %d -> %d, expected +%d", prev, cur, cfg.incr)
+					if cfg.incr > 0 && cur != prev+cfg.incr || cfg.incr <= 0 && cur <= prev {
+						// (with no increment configured the constructor chooses one: it must at least grow)
+						t.Fail("aimd/healthy-increment", "saturated drop-free sample moved the limit %d -> %d, configured increment %d", prev, cur, cfg.incr)
 						return
 					}
 					prev = cur
